@@ -614,7 +614,7 @@ func TestC15(t *testing.T) {
 	hx.Check[c15FileCase]{
 		Property: "C15", Part: "files",
 		Rule:  "byte strings offered as metadata files: random bytes, hostile constants, valid generated links/layouts (both wrappers, harness-signed) after 1-3 JSON-tree mutations (file and DSSE payload level) or byte-level edits with hostile tokens; everything that loads is pushed through ValidateMetablock, canonicalisation, VerifySignature (RSA/ECDSA/Ed25519 keys), Sign, Dump, certificate extraction, and for layouts expiry, parameter substitution, certificate pools, threshold and artifact-rule verification against synthetic links; non-trivial = the input survives LoadMetadata; distinct by case JSON",
-		Cases: hx.Pick(3000, 100000),
+		Cases: hx.Pick(3000, 400000),
 		Gen:   c15GenFile, Run: c15RunFile,
 	}.Execute(t)
 	if t.Failed() {
@@ -623,7 +623,7 @@ func TestC15(t *testing.T) {
 	hx.Check[c15WorldCase]{
 		Property: "C15", Part: "worlds",
 		Rule:  "properly signed degenerate layouts and hostile link directories verified end to end in an isolated process (both entry points, both wrappers): 1-3 of 43 degeneracies (empty / one-token rules, thresholds <=0 or huge, steps without links, undefined or contradictory or malformed keys, garbage certificates, empty run, names with glob metacharacters / separators, duplicate and null collections, hostile verifier keys; garbage / wrong-shape / null-member link files, garbage or key-as-certificate entries, unauthorised and directory-less sublayouts, directories, dangling symlinks and FIFOs named like links); non-trivial = the layout loads and verification proper is reached; distinct by (degeneracies, wrapper, entry)",
-		Cases: hx.Pick(250, 8000),
+		Cases: hx.Pick(250, 40000),
 		Gen:   c15GenWorld, Run: c15RunWorld,
 	}.Execute(t)
 }
